@@ -393,8 +393,25 @@ func cmdCheck(prop, tier string) int {
 	}
 	as = append(as, cfg.Assumptions...)
 	sort.Strings(as)
-	writeEvidence(prop, tier, seed, cfg, funcsUnder, byBackend, samples, tb, len(viols), time.Since(start).Seconds(),
-		map[string]any{"obligations": counted, "discharged": discharged, "solver_time_s": round3(solverTime), "bounded_checks": boundedReports, "known_findings": knownLines}, as)
+	extraCov := map[string]any{"obligations": counted, "discharged": discharged, "solver_time_s": round3(solverTime), "bounded_checks": boundedReports, "known_findings": knownLines}
+	if thorough && len(viols) == 0 && os.Getenv("GOVC_REPO") == "" {
+		// must-fail self-test of this check: up to three mutants of the corpus that name this property are applied to a
+		// scratch copy of the tree and the quick check must report them (guards against a check that has lost its teeth)
+		out, _ := runCmdTimeout(900, "python3", filepath.Join(verifDir, "mutants", "mutants.py"), "--prop="+prop, "--max=3", "--json")
+		var mf []map[string]string
+		for _, l := range strings.Split(out, "\n") {
+			if strings.HasPrefix(strings.TrimSpace(l), "[") {
+				json.Unmarshal([]byte(l), &mf)
+			}
+		}
+		extraCov["must_fail_selftest"] = mf
+		for _, m := range mf {
+			if m["status"] != "CAUGHT" {
+				fmt.Printf("SELFTEST-WARNING property=%s mutant %s was not reported by the quick check (%s)\n", prop, m["mutant"], m["status"])
+			}
+		}
+	}
+	writeEvidence(prop, tier, seed, cfg, funcsUnder, byBackend, samples, tb, len(viols), time.Since(start).Seconds(), extraCov, as)
 	fmt.Fprintf(os.Stderr, "%s: %d/%d obligations discharged, %d violations, %.1fs\n", prop, discharged, counted, len(viols), time.Since(start).Seconds())
 	if len(viols) > 0 {
 		return 1
